@@ -40,6 +40,12 @@ type StressParams struct {
 	// snapshot shows for a writer is then the largest marker over the
 	// top-level collection and the child collections.
 	ChildOnly bool `json:",omitempty"`
+	// Merge: the collection has the order-sensitive merge operator and about
+	// half of the batches append their number to an accumulator key ("acc",
+	// top level and child collections) with a Merge operation: the value a
+	// snapshot shows must be the fold of exactly the operands of the prefix
+	// it shows, in order (lost, doubled or reordered operands change bytes).
+	Merge bool `json:",omitempty"`
 }
 
 // wstate is the projection of the content on one writer's keys.
@@ -78,6 +84,23 @@ type sop struct {
 	suffix string
 	set    bool
 	val    string
+	merge  bool // Merge(val) instead of Set / Del
+}
+
+// applySop applies one operation to a key/value projection.
+func applySop(mp map[string]string, o sop) {
+	switch {
+	case o.merge:
+		var ex []byte
+		if v, ok := mp[o.suffix]; ok {
+			ex = []byte(v)
+		}
+		mp[o.suffix] = string(eng.MergeFold(nil, ex, []byte(o.val)))
+	case o.set:
+		mp[o.suffix] = o.val
+	default:
+		delete(mp, o.suffix)
+	}
 }
 
 func (m *stressModel) batchOps(w, pn int) (top []sop, child [][]sop) {
@@ -87,28 +110,34 @@ func (m *stressModel) batchOps(w, pn int) (top []sop, child [][]sop) {
 	if childOnly {
 		forced = int(h3(seed+w, pn, 998) % uint64(m.p.Children))
 	} else {
-		top = append(top, sop{"m", true, strconv.Itoa(pn)})
+		top = append(top, sop{suffix: "m", set: true, val: strconv.Itoa(pn)})
 	}
 	for j := 0; j < m.p.Keys && !childOnly; j++ {
 		switch h3(seed+w, pn, j) % 4 {
 		case 0, 1:
-			top = append(top, sop{"k" + strconv.Itoa(j), true, fmt.Sprintf("%d.%d", pn, j)})
+			top = append(top, sop{suffix: "k" + strconv.Itoa(j), set: true, val: fmt.Sprintf("%d.%d", pn, j)})
 		case 2:
-			top = append(top, sop{"k" + strconv.Itoa(j), false, ""})
+			top = append(top, sop{suffix: "k" + strconv.Itoa(j)})
 		}
+	}
+	if m.p.Merge && !childOnly && h3(seed+w, pn, 777)%2 == 0 {
+		top = append(top, sop{suffix: "acc", val: strconv.Itoa(pn), merge: true})
 	}
 	child = make([][]sop, m.p.Children)
 	for c := 0; c < m.p.Children; c++ {
 		if h3(seed+w, pn, 100+c)%2 == 0 && c != forced {
 			continue
 		}
-		child[c] = append(child[c], sop{"m", true, strconv.Itoa(pn)})
+		child[c] = append(child[c], sop{suffix: "m", set: true, val: strconv.Itoa(pn)})
+		if m.p.Merge && h3(seed+w, pn, 780+c)%2 == 0 {
+			child[c] = append(child[c], sop{suffix: "acc", val: strconv.Itoa(pn), merge: true})
+		}
 		for j := 0; j < m.p.Keys; j++ {
 			switch h3(seed+w, pn, 200+10*c+j) % 4 {
 			case 0, 1:
-				child[c] = append(child[c], sop{"k" + strconv.Itoa(j), true, fmt.Sprintf("c%d.%d", pn, j)})
+				child[c] = append(child[c], sop{suffix: "k" + strconv.Itoa(j), set: true, val: fmt.Sprintf("c%d.%d", pn, j)})
 			case 2:
-				child[c] = append(child[c], sop{"k" + strconv.Itoa(j), false, ""})
+				child[c] = append(child[c], sop{suffix: "k" + strconv.Itoa(j)})
 			}
 		}
 	}
@@ -126,19 +155,11 @@ func newStressModel(p StressParams) *stressModel {
 		for pn := 1; pn <= p.Batches; pn++ {
 			top, child := m.batchOps(w, pn)
 			for _, o := range top {
-				if o.set {
-					cur.top[o.suffix] = o.val
-				} else {
-					delete(cur.top, o.suffix)
-				}
+				applySop(cur.top, o)
 			}
 			for c, ops := range child {
 				for _, o := range ops {
-					if o.set {
-						cur.child[c][o.suffix] = o.val
-					} else {
-						delete(cur.child[c], o.suffix)
-					}
+					applySop(cur.child[c], o)
 				}
 			}
 			sts = append(sts, cur.clone())
@@ -166,6 +187,9 @@ func (m *stressModel) suffixes() []string {
 	out := []string{"m"}
 	for j := 0; j < m.p.Keys; j++ {
 		out = append(out, "k"+strconv.Itoa(j))
+	}
+	if m.p.Merge {
+		out = append(out, "acc")
 	}
 	return out
 }
@@ -280,9 +304,12 @@ func runStress(p StressParams, scratch string, idx int) *StressResult {
 					return
 				}
 				for _, o := range top {
-					if o.set {
+					switch {
+					case o.merge:
+						b.Merge(wkey(w, o.suffix), []byte(o.val))
+					case o.set:
 						b.Set(wkey(w, o.suffix), []byte(o.val))
-					} else {
+					default:
 						b.Del(wkey(w, o.suffix))
 					}
 				}
@@ -300,9 +327,12 @@ func runStress(p StressParams, scratch string, idx int) *StressResult {
 						return
 					}
 					for _, o := range ops {
-						if o.set {
+						switch {
+						case o.merge:
+							cb.Merge(wkey(w, o.suffix), []byte(o.val))
+						case o.set:
 							cb.Set(wkey(w, o.suffix), []byte(o.val))
-						} else {
+						default:
 							cb.Del(wkey(w, o.suffix))
 						}
 					}
